@@ -95,6 +95,18 @@ fn alphabet(n: usize, tier: Tier) -> Vec<Dev> {
         s.const_into_str = true;
         true
     }));
+    for i in 0..n {
+        for (ln, l) in [("split", Layout::Split), ("reversed", Layout::Reversed)] {
+            d.push(dev(format!("v{}.layout={}", i, ln), &[&format!("layout{}", i)], move |s| {
+                let v = &s.variants[i];
+                if v.serialize.len() + (v.to_string.is_some() as usize) + (v.disabled as usize) < 2 {
+                    return false;
+                }
+                s.variants[i].layout = l;
+                true
+            }));
+        }
+    }
     d
 }
 
